@@ -76,6 +76,22 @@ func c07Cases(thorough bool) []c07Case {
 		"b999999999", "p999999999", "b(10**9)", "p(2**40)", "999999999d6 + 999999999d6", "x = 88888888; (x)d(x)", "`{30000000d6}`", "func f() { 70000000d6 }; f()", "&cv = 60000000d6; cv"} {
 		add("count", p, false, "", false)
 	}
+	// counts at the edge of the integer range (the counter must not wrap)
+	for _, p := range []string{"9223372036854775807d6", "b9223372036854775807", "p9223372036854775806", "(2**62)d6 + (2**62)d6 + (2**62)d6", "9223372036854775807d1k1", "x = 9223372036854775807; (x)d(x)",
+		"func f() { 9223372036854775807d6 }; f()", "`{9223372036854775800d6}`"} {
+		add("overflow", p, false, "", false)
+	}
+	// computed values that load computed values: 2^k evaluations from k definitions
+	for _, k := range []int{10, 16, 20, 26} {
+		var sb strings.Builder
+		sb.WriteString("&v0 = 1d6; ")
+		for i := 1; i <= k; i++ {
+			sb.WriteString(fmt.Sprintf("&v%d = v%d + v%d; ", i, i-1, i-1))
+		}
+		sb.WriteString(fmt.Sprintf("v%d", k))
+		add("computed-chain", sb.String(), false, "", false)
+		add("computed-chain", "func f() { "+sb.String()+" }; f()", false, "", false)
+	}
 	// exploding pools: rounds continue while dice reach the add line
 	for _, p := range []string{"1a2m100000000", "10a2", "20000a2m100000", "5a2m99999999k3", "100a2q1m50000000", "1c2m100000000", "10c2m1000000", "20000c2m99999999", "3c2",
 		"10a10", "10a10m10", "5c10", "5c8m10", "20000a9", "20000c9", "`{7a2m100000000}`", "func f() { 3a2m100000000 }; f()", "&cv = 4c2m100000000; cv", "2a2m100000000 + 2a2m100000000"} {
